@@ -24,7 +24,9 @@ constexpr std::pair<IntT, IntT> reduce_fraction(IntT a, IntT b) {
 
 template <typename IntT>
 constexpr IntT log2i(IntT v) {
-  return (sizeof(IntT) << 3) - 1 - __builtin_clz(v);
+  // __builtin_clz counts in an unsigned int regardless of IntT; count in the
+  // widest type so 8-, 16- and 64-bit arguments give floor(log2(v)) as well
+  return (sizeof(unsigned long long) << 3) - 1 - __builtin_clzll(static_cast<unsigned long long>(v));
 }
 
 } // namespace phosg
